@@ -294,6 +294,16 @@ func init() {
 			}
 			return StrV{out}
 		},
+		"strings.Compare": func(in *Interp, fn *ssa.Function, a []Value) Value {
+			x, y := nfOf(a[0]), nfOf(a[1])
+			if in.p.branch("compare-eq", in.p.strEq(x, y)) {
+				return mkInt(0)
+			}
+			if in.p.branch("compare-lt", in.p.simp(&B{k: BStrLt, a: x, b: y})) {
+				return mkInt(-1)
+			}
+			return mkInt(1)
+		},
 		"strings.NewReader": func(in *Interp, fn *ssa.Function, a []Value) Value {
 			return Ptr{in.newCell(&HostObj{kind: "membuf", v: &memBuf{data: in.p.res(nfOf(a[0]))}})}
 		},
@@ -353,13 +363,13 @@ func init() {
 		},
 		// ---------------------------------------------------------------- bytes.Buffer
 		"bytes.NewBuffer": func(in *Interp, fn *ssa.Function, a []Value) Value {
-			return Ptr{in.newCell(&HostObj{kind: "membuf", v: &memBuf{data: in.bytesContent(a[0].(BytesV))}})}
+			return Ptr{in.newCell(&HostObj{kind: "membuf", v: &memBuf{data: in.bytesContent(a[0].(BytesV)), src: a[0].(BytesV).o}})}
 		},
 		"bytes.NewBufferString": func(in *Interp, fn *ssa.Function, a []Value) Value {
 			return Ptr{in.newCell(&HostObj{kind: "membuf", v: &memBuf{data: in.p.res(nfOf(a[0]))}})}
 		},
 		"bytes.NewReader": func(in *Interp, fn *ssa.Function, a []Value) Value {
-			return Ptr{in.newCell(&HostObj{kind: "membuf", v: &memBuf{data: in.bytesContent(a[0].(BytesV))}})}
+			return Ptr{in.newCell(&HostObj{kind: "membuf", v: &memBuf{data: in.bytesContent(a[0].(BytesV)), src: a[0].(BytesV).o}})}
 		},
 		"(*bytes.Buffer).Write": func(in *Interp, fn *ssa.Function, a []Value) Value {
 			mb := in.memBufOf(a[0])
@@ -684,6 +694,9 @@ func (in *Interp) atomicEdge() {
 		in.g.vc = in.g.vc.join(in.p.atomicVC)
 		in.g.vc = in.g.vc.tick(in.g.id)
 		in.p.atomicVC = in.g.vc.copy()
+		in.g.vcFull = in.g.vcFull.join(in.p.atomicVCFull)
+		in.g.vcFull = in.g.vcFull.tick(in.g.id)
+		in.p.atomicVCFull = in.g.vcFull.copy()
 	}
 }
 
@@ -1073,7 +1086,8 @@ func (in *Interp) writeTo(w Value, data NF) Value {
 // ---------------------------------------------------------------- in-memory buffers
 
 type memBuf struct {
-	data NF // unread / accumulated content
+	data NF       // unread / accumulated content
+	src  *ByteObj // the []byte a bytes.Buffer / bytes.Reader was created over (it aliases it)
 }
 
 func (in *Interp) memBufOf(v Value) *memBuf {
@@ -1093,6 +1107,7 @@ func (in *Interp) memBufOf(v Value) *memBuf {
 func memRead(in *Interp, fn *ssa.Function, a []Value) Value {
 	mb := in.memBufOf(a[0])
 	dst := a[1].(BytesV)
+	in.p.accessBytes(in, mb.src, false) // the reader aliases the slice it was created over
 	mb.data = in.p.res(mb.data)
 	avail := in.p.lenOf(mb.data)
 	want := in.p.resLin(dst.n)
@@ -1146,6 +1161,7 @@ func (r *BufReader) srcRead(in *Interp, want Lin) (NF, Value) {
 	if p, ok := r.src.v.(Ptr); ok && p.c != nil {
 		if h, ok := p.c.v.(*HostObj); ok && h.kind == "membuf" {
 			mb := h.v.(*memBuf)
+			in.p.accessBytes(in, mb.src, false) // the reader aliases the slice it was created over
 			mb.data = in.p.res(mb.data)
 			avail := in.p.lenOf(mb.data)
 			if in.p.branch("src-empty", bLin(avail, EQ0)) {
